@@ -123,6 +123,7 @@ func (q *UdpTaskQueue) popReadyTask() (UdpTask, bool) {
 		return task, true
 	default:
 	}
+	verifYield("convoy.betweenChanPollAndOverflowPop", q)
 	return q.popOverflowTask()
 }
 
@@ -159,6 +160,7 @@ func (q *UdpTaskQueue) convoy() {
 	defer timer.Stop()
 
 	for {
+		verifYield("convoy.loopTop", q)
 		if task, ok := q.popReadyTask(); ok {
 			q.executeTask(task, timer)
 			continue
@@ -173,6 +175,7 @@ func (q *UdpTaskQueue) convoy() {
 				return
 			}
 		case <-timer.C:
+			verifYield("convoy.timerFired", q)
 			// Idle GC: only remove queue when no in-flight EmitTask and no pending tasks.
 			// Use atomic checks first to avoid lock contention.
 			if q.refs.Load() > 0 || len(q.ch) > 0 || q.overflowLen.Load() > 0 {
@@ -180,14 +183,17 @@ func (q *UdpTaskQueue) convoy() {
 				continue
 			}
 
+			verifYield("convoy.afterEmptyCheck", q)
 			// CAS refs to lock out new acquireQueue and avoid time.Sleep
 			if !q.refs.CompareAndSwap(0, -1000000) {
 				q.safeTimerReset(timer)
 				continue
 			}
 
+			verifYield("convoy.afterClaimCAS", q)
 			// Try to delete from pool using CAS-like semantics via sync.Map
 			if q.p.tryDeleteQueue(q.key, q) {
+				verifYield("convoy.beforeRecycle", q)
 				q.p.queueChPool.Put(q.ch)
 				return
 			}
@@ -225,7 +231,9 @@ func (p *UdpTaskPool) EmitTask(key UdpFlowKey, task UdpTask) {
 	if q == nil {
 		return
 	}
+	verifYield("emit.beforeEnqueue", q)
 	q.enqueue(task)
+	verifYield("emit.afterEnqueue", q)
 	q.refs.Add(-1)
 }
 
@@ -238,10 +246,12 @@ func (p *UdpTaskPool) acquireQueue(key UdpFlowKey) *UdpTaskQueue {
 	if v, ok := p.queues.Load(key); ok {
 		q := v.(*UdpTaskQueue)
 		for {
+			verifYield("acquire.beforeLoadRefs", q)
 			refs := q.refs.Load()
 			if refs < 0 {
 				goto createNew
 			}
+			verifYield("acquire.betweenLoadAndCAS", q)
 			if q.refs.CompareAndSwap(refs, refs+1) {
 				return q
 			}
@@ -260,6 +270,7 @@ createNew:
 		agingTime: UdpTaskPoolAgingTime,
 	}
 
+	verifYield("acquire.beforeLoadOrStore", newQ)
 	// LoadOrStore ensures atomic create-or-get semantics without explicit locks
 	actual, loaded := p.queues.LoadOrStore(key, newQ)
 	if loaded {
@@ -267,18 +278,22 @@ createNew:
 		p.queueChPool.Put(ch)
 		q := actual.(*UdpTaskQueue)
 		for {
+			verifYield("acquire.slowBeforeLoadRefs", q)
 			refs := q.refs.Load()
 			if refs < 0 {
+				verifYield("acquire.beforeCompareAndDelete", q)
 				// Use CompareAndDelete to only delete if still the same draining queue
 				p.queues.CompareAndDelete(key, q)
 				goto createNew
 			}
+			verifYield("acquire.slowBetweenLoadAndCAS", q)
 			if q.refs.CompareAndSwap(refs, refs+1) {
 				return q
 			}
 		}
 	}
 	q := actual.(*UdpTaskQueue)
+	verifYield("acquire.afterStoreBeforeAddRef", q)
 	q.refs.Add(1)
 
 	// Only start the convoy goroutine for newly created queues
